@@ -2,7 +2,7 @@
    Only statements, `exact <lemma>` and Print Assumptions live here.  In every theorem [cs] is an arbitrary list of
    chunks — any number of chunks of any sizes — and the in-memory value is the Spec function of [concat cs]. *)
 From Coq Require Import String ZArith List Bool Lia Sorting.Sorted.
-From BNP Require Import Base.Prims Model.C11 Proofs.C11 Proofs.C11_rechunk Proofs.C11_groupby Proofs.C11_graph Proofs.C11_pipeline Proofs.C11_spec Corr.C11 Proofs.C11_link Proofs.C11_expr Proofs.C11_expr_spec Proofs.C11_stranded Proofs.C11_link2 Gen.C11 Bridge.C11.
+From BNP Require Import Base.Prims Model.C11 Proofs.C11 Proofs.C11_rechunk Proofs.C11_groupby Proofs.C11_graph Proofs.C11_pipeline Proofs.C11_spec Corr.C11 Proofs.C11_link Proofs.C11_expr Proofs.C11_expr_spec Proofs.C11_stranded Proofs.C11_blocks Proofs.C11_windows Proofs.C11_link2 Gen.C11 Bridge.C11.
 Import ListNotations.
 Open Scope Z_scope.
 
@@ -274,6 +274,30 @@ Theorem C11_stranded_spec : forall p order sizes (csa : list (list (Z * iv))) (c
 Proof. exact stranded_spec_current. Qed.
 Print Assumptions C11_stranded_spec.
 
+(* T15 no size threshold: count_encoded counts inputs of more than max_size values block by block; the blocks cover
+   the input, so the count is the plain count for EVERY length — in particular for a chunk (or the whole table) of
+   more than 10^6 k-mers that is not a multiple of 10^6 — and the streamed counts of run-length encoded reads are the
+   per-letter totals for every chunking. *)
+Theorem C11_count_blocks : forall M K (l : list Z), 0 < M -> count_encoded_flat M K l = count_vector K l.
+Proof. exact count_encoded_flat_correct. Qed.
+Print Assumptions C11_count_blocks.
+
+Theorem C11_big_counts_chunked : forall M K (cs : list (list runs_t)), 0 < M -> cs <> [] ->
+  Forall (fun xn : Z * Z => 0 <= snd xn) (concat (concat cs)) ->
+  stream_big_counts M K cs = Some (spec_big_counts K cs).
+Proof. exact big_counts_chunked. Qed.
+Print Assumptions C11_big_counts_chunked.
+
+(* T16 windows around streamed locations, in both keyword forms — get_windows(flank=f): [p - f, p + f + 1);
+   get_windows(window_size=w): [p - w/2, p + w/2 + w mod 2), odd and even w — clipped to the chromosome; the windows,
+   the values under them and their mean over axis 0: streamed = in-memory for every genome and chunking *)
+Theorem C11_windows_spec : forall a q order sizes (cs : list (list (Z * iv))),
+  NoDup order -> length order = length sizes -> (0 < length sizes)%nat ->
+  cs <> [] -> Forall (fun c => c <> []) cs -> ordered order (concat cs) ->
+  run_windows a q order sizes cs = Some (spec_windows a q order sizes (concat cs)).
+Proof. exact windows_spec. Qed.
+Print Assumptions C11_windows_spec.
+
 Theorem C11_gen_extra_link : forall g, gen_wellformed g = true ->
   forallb (fun c => negb (len c =? 0)) (g_w g) = true ->
   ordered (gen_order g) (concat (g_a g)) -> ordered (gen_order g) (concat (g_b g)) -> ordered (gen_order g) (concat (g_w g)) ->
@@ -346,9 +370,15 @@ Theorem C11_source_tie :
   /\
   (forall (p q : Z * Z) (x y : list (Z * Z)) la lb, sn_padadd (p :: x) (q :: y) = (gen_ac_add (fst p) (fst q), gen_ac_add (snd p) (snd q)) :: sn_padadd x y /\ sn_padadd (p :: x) [] = p :: x /\ sn_padadd [] (q :: y) = q :: y /\ gen_ac_equal_cond la lb = (la =? lb) /\ gen_ac_swap_cond la lb = (la <? lb) /\ gen_ac_prefix_stop la lb = lb /\ gen_ac_tail_start la lb = lb)
   /\
-  (forall fast (keys data : list Z), gen_gb_empty_test (len keys) = true -> groupby_chunk fast keys data = []).
+  (forall fast (keys data : list Z), gen_gb_empty_test (len keys) = true -> groupby_chunk fast keys data = [])
+  /\
+  (forall f w p l r, (gen_win_l_f_str f, gen_win_r_f_str f) = m_win_flanks (WFlank f) /\ (gen_win_l_w_str w, gen_win_r_w_str w) = m_win_flanks (WSize w) /\ (gen_win_l_f_mem f, gen_win_r_f_mem f) = m_win_flanks (WFlank f) /\ (gen_win_l_w_mem w, gen_win_r_w_mem w) = m_win_flanks (WSize w) /\ gen_win_lo_str p l r = p - l /\ gen_win_hi_str p l r = p + r /\ gen_win_lo_mem p l r = p - l /\ gen_win_hi_mem p l r = p + r)
+  /\
+  (forall size (i : iv), (gen_clip_start (fst i) size, gen_clip_stop (snd i) size) = clip_iv size i)
+  /\
+  (forall n M i, gen_ceb_max = max_block /\ gen_ceb_cond n M = (n >? M) /\ gen_ceb_nblocks n M = m_nblocks n M /\ gen_ceb_lo i M = i * M /\ gen_ceb_hi i M = (i + 1) * M).
 Proof.
-  exact (conj b_ce_loop_cond (conj b_ce_size_in (conj b_ce_emit_stop (conj b_ce_carry_start (conj b_ce_size_after (conj b_ce_tail_cond (conj b_cl_loop_cond (conj b_cl_bounds (conj b_cl_after (conj b_sum_and_n (conj b_br_cond (conj b_br_stops (conj b_br_add (conj b_hr_total (conj b_mean_reduction (conj b_add_hist_count (conj b_sum_reduction (conj b_stream_node (conj b_computation_node (conj b_gc_changed (conj b_gc_index (conj b_gb_fast_test (conj b_gb_fast_start (conj b_gb_bounds (conj b_gb_group (conj b_join_fields (conj b_ufunc_operand_order (conj b_stranded_forward (conj b_add_columns b_gb_empty_test))))))))))))))))))))))))))))).
+  exact (conj b_ce_loop_cond (conj b_ce_size_in (conj b_ce_emit_stop (conj b_ce_carry_start (conj b_ce_size_after (conj b_ce_tail_cond (conj b_cl_loop_cond (conj b_cl_bounds (conj b_cl_after (conj b_sum_and_n (conj b_br_cond (conj b_br_stops (conj b_br_add (conj b_hr_total (conj b_mean_reduction (conj b_add_hist_count (conj b_sum_reduction (conj b_stream_node (conj b_computation_node (conj b_gc_changed (conj b_gc_index (conj b_gb_fast_test (conj b_gb_fast_start (conj b_gb_bounds (conj b_gb_group (conj b_join_fields (conj b_ufunc_operand_order (conj b_stranded_forward (conj b_add_columns (conj b_gb_empty_test (conj b_win_flanks (conj b_clip b_count_blocks)))))))))))))))))))))))))))))))).
 Qed.
 Print Assumptions C11_source_tie.
 
@@ -419,3 +449,12 @@ Example C11_nonvacuous_phase4 :
   /\ run_stranded SValues [0; 1] [6; 4] csa [[(0, ((0, 3), 2)); (1, ((1, 4), 0))]] = Some (GR [[2; 1; 0]; [1; 1; 0]])
   /\ spec_stranded SValues [0; 1] [6; 4] (concat csa) [(0, ((0, 3), 2)); (1, ((1, 4), 0))] = GR [[2; 1; 0]; [1; 1; 0]].
 Proof. vm_compute. repeat split; try reflexivity. eexists; eexists; reflexivity. Qed.
+
+(* keyword forms: an even window_size gives a window of exactly that width; a chunk longer than the block size *)
+Example C11_nonvacuous_phase6 :
+  m_win_flanks (WSize 4) = (2, 2) /\ m_win_flanks (WSize 5) = (2, 3) /\ m_win_flanks (WFlank 2) = (2, 3)
+  /\ run_windows (WSize 4) WWindows [0; 1] [12; 9] [[(0, (6, 8))]; [(0, (10, 11)); (1, (1, 3))]]
+     = Some (GT [GIv [(4, 8); (8, 12)]; GIv [(0, 3)]])
+  /\ count_encoded_flat 3 2 [0; 1; 1; 0; 1; 1; 1; 0] = [3; 5]
+  /\ m_nblocks 8 3 = 3.
+Proof. vm_compute. repeat split; reflexivity. Qed.
